@@ -7,6 +7,22 @@ props = [json.loads(l) for l in open(os.path.join(V, 'properties.jsonl'))]
 PROV_NOTE = ('Trusts: the transcription of PS3.8 Table 9-10 in specs/ULFsm.tla; the simulated socket / select / clock of '
              'harness/simnet.py standing for TCP and time; the projection of provider state in harness/ulrun.py; TLC.')
 claimed = {
+ 'C16': dict(level='model_checking', ref='4 (C16)',
+   technique='TLA+ Services.tla (RspFind/GotFind acceptors) + SendQueue.tla (all interleavings of application thread and lazily encoding provider thread, checked by TLC); real find providers/users run under lazy-encoding schedules, traces validated by TLC',
+   text='SendQueue.tla shows by TLC that delivery fails for a reused response object and holds for fresh ones (design counterexample of the repaired defect). The real qr_find_scp / worklist providers and users run on real Association objects: every sequence of the two pending codes up to length 3-4 (6 thorough) and seeded longer ones, final success/failure/cancel, maxima forcing multi-fragment and exact-fit responses, four schedules of the lazy encoding; one response per match with the same data and status in order, one final response without identifier, user yields exactly the wire sequence and stops.',
+   note='Data sets are compared by digest tokens. The c_find wrapper is exercised over real sockets by the C15/C20 checks.'),
+ 'C17': dict(level='model_checking', ref='4 (C17)',
+   technique='TLA+ Services.tla Correlated/End acceptors validated by TLC on traces of every provider callable run on a real Association with independent wire readers',
+   text='verification_scp, storage_scp, qr_find_scp, worklist, qr_move_scp, StorageCommitment.n_action / n_event_report and the C-STORE responses of qr_get_scu: message ids at all 16-bit boundaries plus samples, context ids, UID lengths, every handler outcome incl. EventHandlingError, success/failure/mixed commitment lists, three schedules of lazy encoding. TLC checks context, Message ID Being Responded To, SOP class/instance, response type, status and that every request is answered with a complete message.',
+   note='Documented failure statuses are tabulated in harness/svccheck.py from the docstrings of sopclass.py.'),
+ 'C18': dict(level='model_checking', ref='4 (C18)',
+   technique='TLA+ StatusClass.tla (PS3.4/PS3.7 tables as ranges) checked by TLC over every <<command, code>>; library classification of all 65536 codes x 12 commands judged by TLC (Trace_StatusClass)',
+   text='Exhaustive: Status(code, command) for every code and every response class and no class, twice (ascending; shuffled after foreign-class lookups, to expose history dependence), compressed into runs and judged code by code by TLC against Allowed(cmd, code); exactly one flag, int() identity.',
+   note='0107H/0116H may be Warning or Failure (statement silent). FF00/FF01/FE00 outside the three Q/R services are unknown codes, i.e. Failure.'),
+ 'C19': dict(level='model_checking', ref='4 (C19)',
+   technique='TLA+ Services.tla C-GET user / C-MOVE provider acceptors validated by TLC on traces of the real qr_get_scu / qr_move_scp',
+   text='Sub-operation counts 0..4 (6 thorough) with every outcome combination, long moves, every placement of pending C-GET responses among the C-STORE requests, handler outcomes incl. EventHandlingError, message/context ids, three lazy-encoding schedules: each C-STORE request answered exactly once on its context; instances yielded once in order; each supplied instance stored once in order at the designated destination; remaining = total - k and k performed after k sub-operations; exactly one final response, also for an empty move.',
+   note='Sub-association is a recording stub injected through request_association.'),
  'C01': dict(level='model_checking', ref='4 (C01)',
    technique='TLA+ Wire.tla (PS3.8 layouts as data, length-driven Dec) checked by TLC over an enumerated structure universe; library round trips judged by TLC (Trace_Wire)',
    text='TLC enumerates structures (all ordered pairs - triples in thorough - of 40 user-information sub-item variants, presentation-context lists, item orders, header boundary values, all small PDUs), checks RoundTrip/TotalLength/LengthsExact of the reference on each; every structure plus thousands of seeded random ones is built with the public classes, encoded, decoded and re-encoded; TLC judges round-trip identity clause by clause; payloads beyond 64 KiB are judged with the certified reference.',
